@@ -80,6 +80,8 @@ theorem infix_flatMap {α : Type} (l : List α) (f : α → Bytes) (a : α) (h :
     · obtain ⟨s, t, hst⟩ := ih h
       exact ⟨f x ++ s, t, by rw [← hst]; simp⟩
 
+theorem infix_mid (a x b : Bytes) : x <:+: a ++ x ++ b := ⟨a, b, rfl⟩
+
 theorem value_infix_leaf (ver : Ver) (H : Bytes → Bytes) (pk : Nibs) (v : Bytes)
     (hm : mustBeHashed ver v = true) : H v <:+: encodeNode ver H (leaf pk v) := by
   simp only [encodeNode, encodeValue, hm, if_true]
@@ -88,26 +90,26 @@ theorem value_infix_leaf (ver : Ver) (H : Bytes → Bytes) (pk : Nibs) (v : Byte
 theorem value_infix_branch (ver : Ver) (H : Bytes → Bytes) (pk : Nibs) (v : Bytes) (cs : Nib → Trie)
     (hm : mustBeHashed ver v = true) : H v <:+: encodeNode ver H (branch pk (some v) cs) := by
   simp only [encodeNode, encodeValue, hm, if_true]
-  exact ⟨header 0x10 0x0f pk.length ++ packNibs pk ++ leBytes 2 (bitmap cs), _, by simp⟩
+  exact infix_mid _ _ _
 
 theorem kid_infix (ver : Ver) (H : Bytes → Bytes) (pk : Nibs) (v : Option Bytes) (cs : Nib → Trie)
     (i : Nib) (hn : (cs i).isNil = false) (hl : 32 ≤ (encodeNode ver H (cs i)).length) :
     H (encodeNode ver H (cs i)) <:+: encodeNode ver H (branch pk v cs) := by
-  have h1 := infix_flatMap (List.finRange 16)
-    (fun i : Fin 16 => if (cs i).isNil then [] else scaleBytes (merkleValue H (encodeNode ver H (cs i))))
-    i (List.mem_finRange i)
   have hmv : merkleValue H (encodeNode ver H (cs i)) = H (encodeNode ver H (cs i)) := by
     unfold merkleValue; split
     · omega
     · rfl
-  simp only [hn, Bool.false_eq_true, if_false, hmv, scaleBytes] at h1
-  have h2 : H (encodeNode ver H (cs i)) <:+:
-      compactNat (H (encodeNode ver H (cs i))).length ++ H (encodeNode ver H (cs i)) :=
-    ⟨_, [], by simp⟩
-  have h3 := h2.trans h1
+  have h2 : H (encodeNode ver H (cs i)) <:+: scaleBytes (merkleValue H (encodeNode ver H (cs i))) := by
+    rw [hmv]; exact ⟨compactNat (H (encodeNode ver H (cs i))).length, [], by simp [scaleBytes]⟩
   simp only [encodeNode]
-  obtain ⟨a, b, hab⟩ := h3
-  exact ⟨_ ++ a, b, by rw [← hab]; simp⟩
+  have key : ∀ (F : Fin 16 → Bytes) (A : Bytes), F i = scaleBytes (merkleValue H (encodeNode ver H (cs i))) →
+      H (encodeNode ver H (cs i)) <:+: A ++ (List.finRange 16).flatMap F := by
+    intro F A hF
+    have h1 := infix_flatMap (List.finRange 16) F i (List.mem_finRange i)
+    rw [hF] at h1
+    obtain ⟨a, b, hab⟩ := h2.trans h1
+    exact ⟨A ++ a, b, by rw [← hab]; simp⟩
+  exact key _ _ (by simp [hn])
 
 /-! ### who holds a value -/
 
@@ -145,11 +147,10 @@ theorem holder_zero {n : Trie} {v : Bytes} (h : lookup n [0] = some v) :
       right; left; exact ⟨cs, by rw [h]⟩
     · have hpk : pk = [] ∧ i = 0 ∧ r = [] := by
         cases pk with
-        | nil => simp at hk; exact ⟨rfl, hk.1.symm, hk.2.symm⟩
+        | nil => simp at hk; exact ⟨rfl, hk.1.symm, hk.2⟩
         | cons a t =>
           have := congrArg List.length hk
           simp at this
-          omega
       obtain ⟨rfl, rfl, rfl⟩ := hpk
       have := lookup_branch_child [] x cs 0 []
       simp only [List.nil_append] at this
@@ -165,16 +166,130 @@ theorem child_zero {T0 : Trie} {q : Nibs} (h1 : subAt T0 q ≠ nil) (h2 : subAt 
   · cases h
   · have hpk : pk = [] ∧ i = 0 ∧ rest = [] := by
       cases pk with
-      | nil => simp at hp; exact ⟨rfl, hp.1.symm, hp.2.symm⟩
+      | nil => simp at hp; exact ⟨rfl, hp.1.symm, hp.2⟩
       | cons a t =>
         have := congrArg List.length hp
         simp at this
-        omega
     obtain ⟨rfl, rfl, rfl⟩ := hpk
     refine ⟨v, cs, ht, ?_⟩
     rw [ht]
     have := subAt_child [] v cs 0 []
     simp only [List.nil_append] at this
     rw [this]; simp
+
+/-! ### distinct positions, distinct rows -/
+
+theorem rowKey_split {H : Bytes → Bytes} (hlen : ∀ x, (H x).length = 32) {p q : Nibs} {x y : Bytes}
+    (h : rowKey p (H x) = rowKey q (H y)) : prefixBytes p = prefixBytes q ∧ H x = H y := by
+  unfold rowKey at h
+  exact List.append_inj' h (by simp [hlen])
+
+/-- a value is never the encoding of the node that holds it, nor of that node's parent slot -/
+theorem value_ne_enc {ver : Ver} {H : Bytes → Bytes} (hH : HashOK H) {n : Trie} {v : Bytes}
+    (hm : mustBeHashed ver v = true)
+    (hhold : (n = leaf [] v ∨ ∃ cs, n = branch [] (some v) cs) ∨
+      (n = leaf [0] v ∨ (∃ cs, n = branch [0] (some v) cs) ∨
+        ∃ bv cs, n = branch [] bv cs ∧ lookup (cs 0) [] = some v)) :
+    encodeNode ver H n ≠ v := by
+  obtain ⟨rk, hrk⟩ := hH.rank
+  intro he
+  have hdirect : ∀ m : Trie, (∃ pk, m = leaf pk v) ∨ (∃ pk cs, m = branch pk (some v) cs) →
+      H v <:+: encodeNode ver H m := by
+    intro m hmm
+    rcases hmm with ⟨pk, rfl⟩ | ⟨pk, cs, rfl⟩
+    · exact value_infix_leaf ver H pk v hm
+    · exact value_infix_branch ver H pk v cs hm
+  have hself : ∀ m : Trie, encodeNode ver H m = v →
+      ((∃ pk, m = leaf pk v) ∨ (∃ pk cs, m = branch pk (some v) cs)) → False := by
+    intro m hmv hmm
+    have := hrk _ _ (hdirect m hmm)
+    rw [hmv] at this
+    exact Nat.lt_irrefl _ this
+  rcases hhold with (rfl | ⟨cs, rfl⟩) | (rfl | ⟨cs, rfl⟩ | ⟨bv, cs, rfl, hc⟩)
+  · exact hself _ he (Or.inl ⟨_, rfl⟩)
+  · exact hself _ he (Or.inr ⟨_, _, rfl⟩)
+  · exact hself _ he (Or.inl ⟨_, rfl⟩)
+  · exact hself _ he (Or.inr ⟨_, _, rfl⟩)
+  · -- the value sits in child 0, whose hash is inside the encoding of `n`
+    have hc' : (∃ pk, cs 0 = leaf pk v) ∨ (∃ pk ccs, cs 0 = branch pk (some v) ccs) := by
+      rcases holder_nil hc with h | ⟨ccs, h⟩
+      · exact Or.inl ⟨_, h⟩
+      · exact Or.inr ⟨_, _, h⟩
+    have h1 := hdirect (cs 0) hc'
+    have hlong : 32 ≤ (encodeNode ver H (cs 0)).length := by
+      obtain ⟨a, b, hab⟩ := h1
+      have := congrArg List.length hab
+      simp [hH.len] at this
+      omega
+    have hnn : (cs 0).isNil = false := by
+      rcases hc' with ⟨pk, h⟩ | ⟨pk, ccs, h⟩ <;> rw [h] <;> rfl
+    have h2 := kid_infix ver H [] bv cs 0 hnn hlong
+    have r1 := hrk _ _ h1
+    have r2 := hrk _ _ h2
+    rw [he] at r2
+    omega
+
+theorem rows_inj {ver : Ver} {H : Bytes → Bytes} (hH : HashOK H) (T0 : Trie)
+    (heven : ∀ k v, lookup T0 k = some v → k.length % 2 = 0) (pos1 pos2 : Pos)
+    (h1 : ValidPos ver H T0 pos1) (h2 : ValidPos ver H T0 pos2)
+    (heq : rowOf ver H T0 pos1 = rowOf ver H T0 pos2) : pos1 = pos2 := by
+  obtain ⟨rk, hrk⟩ := hH.rank
+  -- a node and its child 0 never have the same encoding
+  have hnn : ∀ q : Nibs, subAt T0 q ≠ nil → subAt T0 (q ++ [0]) ≠ nil →
+      32 ≤ (encodeNode ver H (subAt T0 (q ++ [0]))).length →
+      encodeNode ver H (subAt T0 q) ≠ encodeNode ver H (subAt T0 (q ++ [0])) := by
+    intro q hq hq0 hl he
+    obtain ⟨v, cs, hb, hc⟩ := child_zero hq hq0
+    rw [hb] at he
+    rw [← hc] at he hl hq0
+    have := hrk _ _ (kid_infix ver H [] v cs 0 (isNil_false_of_ne hq0) hl)
+    rw [he] at this
+    exact Nat.lt_irrefl _ this
+  -- a hashed value is never the encoding of a node at the same packed prefix
+  have hnv : ∀ (p k : Nibs) (v : Bytes), subAt T0 p ≠ nil → lookup T0 k = some v →
+      mustBeHashed ver v = true → prefixBytes p = prefixBytes k →
+      encodeNode ver H (subAt T0 p) ≠ v := by
+    intro p k v hp hk hm hpre
+    have hke := heven k v hk
+    rcases prefixBytes_eq p k hpre with rfl | ⟨hodd, _⟩ | ⟨hodd, rfl⟩
+    · have := lookup_subAt T0 p [] hp
+      rw [List.append_nil, hk] at this
+      exact value_ne_enc hH hm (Or.inl (holder_nil this.symm))
+    · omega
+    · have := lookup_subAt T0 p [0] hp
+      rw [hk] at this
+      exact value_ne_enc hH hm (Or.inr (holder_zero this.symm))
+  cases pos1 with
+  | node p =>
+    cases pos2 with
+    | node q =>
+      obtain ⟨hpre, hh⟩ := rowKey_split hH.len heq
+      have henc := hH.inj _ _ hh
+      rcases prefixBytes_eq p q hpre with rfl | ⟨_, rfl⟩ | ⟨_, rfl⟩
+      · rfl
+      · exact absurd henc.symm (hnn q h2.1 h1.1 (h1.2 (by simp)))
+      · exact absurd henc (hnn p h1.1 h2.1 (h2.2 (by simp)))
+    | val k =>
+      obtain ⟨v, hk, hm⟩ := h2
+      simp only [rowOf, hk, Option.getD_some] at heq
+      obtain ⟨hpre, hh⟩ := rowKey_split hH.len heq
+      exact absurd (hH.inj _ _ hh) (hnv p k v h1.1 hk hm hpre)
+  | val k =>
+    obtain ⟨v, hk, hm⟩ := h1
+    cases pos2 with
+    | node q =>
+      simp only [rowOf, hk, Option.getD_some] at heq
+      obtain ⟨hpre, hh⟩ := rowKey_split hH.len heq
+      exact absurd (hH.inj _ _ hh).symm (hnv q k v h2.1 hk hm hpre.symm)
+    | val k' =>
+      obtain ⟨v', hk', hm'⟩ := h2
+      simp only [rowOf, hk, hk', Option.getD_some] at heq
+      obtain ⟨hpre, _⟩ := rowKey_split hH.len heq
+      have e1 := heven k v hk
+      have e2 := heven k' v' hk'
+      rcases prefixBytes_eq k k' hpre with rfl | ⟨hodd, _⟩ | ⟨hodd, _⟩
+      · rfl
+      · omega
+      · omega
 
 end Gossamer.C06
